@@ -50,21 +50,26 @@ def begin_match(m, lin, unsure):
     end = beg + json_get(cont, 'length', int)
     rule = json_get(m, 'rule', dict)
 
-    msg = protect_html(json_get(m, 'message', str)) + '\n'
+    # inside the title attribute, '<br>\n' from protect_html() would be
+    # taken for the end of a table row by add_line_numbers()
+    def protect_attr(s):
+        return protect_html(s).replace('<br>\n', '\n')
 
-    msg += protect_html('Line ' + str(lin) + ('+' if unsure else '')
+    msg = protect_attr(json_get(m, 'message', str)) + '\n'
+
+    msg += protect_attr('Line ' + str(lin) + ('+' if unsure else '')
                         + ': >>>' + txt[beg:end] + '<<<')
     rule_id = json_get(rule, 'id', str)
     if 'subId' in rule:
             rule_id += '[' + json_get(rule, 'subId', str) + ']'
-    msg += protect_html('    (Rule ID: ' + rule_id + ')') + '\n'
+    msg += protect_attr('    (Rule ID: ' + rule_id + ')') + '\n'
 
     repls = '; '.join(json_get(r, 'value', str)
                         for r in json_get(m, 'replacements', list))
-    msg += 'Suggestion: ' + protect_html(repls) + '\n'
+    msg += 'Suggestion: ' + protect_attr(repls) + '\n'
 
     txt = txt[:beg] + '>>>' + txt[beg:end] + '<<<' + txt[end:]
-    msg += 'Context: ' + protect_html(txt)
+    msg += 'Context: ' + protect_attr(txt)
 
     style = highlight_style_unsure if unsure else highlight_style
     beg_tag = '<span style="' + style + '" title="' + msg + '">'
